@@ -381,6 +381,32 @@ impl super::DebugSession {
             })
         };
 
+        // The scopes already listed at this stop were read before the write.
+        // Read them again in place, so that a later `variables` request shows what the program holds now
+        // (setVariable updates its cached item the same way).
+        let in_focus = (dbg.ecx().pid_on_focus(), dbg.ecx().frame_num());
+        let listed: Vec<_> = self.scope_cache.iter().map(|(k, r)| (*k, *r)).collect();
+        for ((thread_id, frame_num, kind), vars_ref) in listed {
+            let pid = self
+                .thread_cache
+                .get(&thread_id)
+                .copied()
+                .unwrap_or_else(|| Pid::from_raw(thread_id as i32));
+            let _ = dbg.set_thread_into_focus_by_pid(pid);
+            let _ = dbg.set_frame_into_focus(frame_num);
+            let items = match kind {
+                super::frame::ScopeKind::Locals => read_locals(dbg),
+                super::frame::ScopeKind::Arguments => read_args(dbg),
+            }
+            .unwrap_or_default();
+            if let Some(slot) = self.vars.get_mut(vars_ref) {
+                *slot = items;
+            }
+            self.child_links.retain(|(parent, _), _| *parent != vars_ref);
+        }
+        let _ = dbg.set_thread_into_focus_by_pid(in_focus.0);
+        let _ = dbg.set_frame_into_focus(in_focus.1);
+
         self.send_success_body(req, response)?;
         self.enqueue_invalidated(vec![
             "variables".to_string(),
